@@ -269,6 +269,13 @@ func (c *Chooser) eqStr(a, b string) bool {
 	if x > y {
 		x, y = y, x
 	}
+	if _, decided := c.memo["eq("+x+","+y+")"]; !decided && c.prefixOfTrimmedDenied(a, b) {
+		// a string is a prefix of itself with a suffix trimmed: an atom
+		// HasPrefix(A, TrimSuffix(B, ·)) already valued false leaves only
+		// "different" for eq(A, B) — no decision, no impossible valuation
+		c.strs.setNe(a, b)
+		return false
+	}
 	v := c.choose("eq("+x+","+y+")", 2, func(i int) string { return map[int]string{0: "different", 1: "equal"}[i] })
 	if v == 1 {
 		c.strs.setEq(a, b)
@@ -387,4 +394,38 @@ func (c *Chooser) isZeroTime(a string) bool {
 		t.index[a] = 0
 	}
 	return z
+}
+
+// trimmedOperand returns X when key spells strings.TrimSuffix(X, ·) or
+// strings.TrimRight(X, ·).
+func trimmedOperand(key string) (string, bool) {
+	for _, f := range []string{"strings.TrimSuffix(", "strings.TrimRight("} {
+		if strings.HasPrefix(key, f) && strings.HasSuffix(key, ")") {
+			inner := key[len(f) : len(key)-1]
+			if i := strings.LastIndex(inner, ","); i > 0 {
+				return inner[:i], true
+			}
+		}
+	}
+	return "", false
+}
+
+// prefixOfTrimmedDenied: some atom strings.HasPrefix(A, Trim(B)) is valued
+// false in this valuation, with {A, B} the two given string terms ("s:"-keyed).
+func (c *Chooser) prefixOfTrimmedDenied(a, b string) bool {
+	ka, kb := strings.TrimPrefix(a, "s:"), strings.TrimPrefix(b, "s:")
+	if ka == a || kb == b {
+		return false
+	}
+	for _, pr := range [][2]string{{ka, kb}, {kb, ka}} {
+		for _, f := range []string{"strings.TrimSuffix(", "strings.TrimRight("} {
+			pre := "strings.HasPrefix(" + pr[0] + "," + f + pr[1] + ","
+			for k, v := range c.memo {
+				if v == 0 && strings.HasPrefix(k, pre) {
+					return true
+				}
+			}
+		}
+	}
+	return false
 }
